@@ -279,7 +279,7 @@ impl Property for C13 {
         "fault_enumeration"
     }
     fn rule(&self) -> String {
-        "well-formed SEM programs (see C05; no probes) must produce no diagnostic in any file; then one fault is seeded per case (see the fault classes in the family names) and >=1 diagnostic must intersect the seeded site in the seeded file, and no diagnostic may appear in files the fault does not touch. distinct = (seed, n, fault); non-trivial = program with >=3 declaration kinds and >=1 bang operator (clean), or any seeded case".into()
+        "well-formed SEM programs (see C05; no probes) must produce no diagnostic in any file; then one fault is seeded per case (see the fault classes in the family names) and >=1 diagnostic must intersect the seeded site in the seeded file, and no diagnostic may appear in files the fault does not touch. distinct = (seed, n, fault); non-trivial = program with >=3 declaration kinds and >=1 bang operator (clean), or any seeded case. Family real-files: the 14 vendored LLVM-14 headers that llvm-tblgen-14 accepts as a root of their own (Target.td, Intrinsics.td with all target intrinsics, ValueTypes.td, OptParser.td, OMP.td, …), analysed with the whole include tree, in LF and CRLF form, must produce no diagnostic".into()
     }
     fn families(&self, ctx: &Ctx) -> Vec<Family> {
         let mut v = vec![Family::new("well-formed", ctx.tier.pick(400, 20000), |_c, rng, emit| {
@@ -289,6 +289,22 @@ impl Property for C13 {
                 }
             }
         })];
+        // real files: those of the vendored LLVM headers that llvm-tblgen-14 accepts as a root of their own
+        // (audit result, corpus/llvm14-accepted-standalone.txt), analysed with the whole include tree
+        // available; also with CRLF line endings
+        v.push(
+            Family::new("real-files", 1, |_c, _rng, emit| {
+                let list = std::fs::read_to_string(crate::fw::sup::verif_dir().join("corpus/llvm14-accepted-standalone.txt")).unwrap_or_default();
+                for rel in list.lines().map(str::trim).filter(|l| !l.is_empty()) {
+                    for crlf in [false, true] {
+                        if !emit(json!({"kind": "real-file", "root": rel, "crlf": crlf})) {
+                            return;
+                        }
+                    }
+                }
+            })
+            .exhaustive(),
+        );
         for class in FAULTS {
             v.push(Family::new(&format!("fault:{class}"), ctx.tier.pick(60, 3000), move |_c, rng, emit| {
                 for _ in 0..50 {
@@ -305,6 +321,34 @@ impl Property for C13 {
     fn run_case(&self, _ctx: &Ctx, case: &Case) -> Verdict {
         if case["kind"] == "manual" {
             return super::semcase::manual(case, "C13");
+        }
+        if case["kind"] == "real-file" {
+            let Some(rel) = case["root"].as_str() else { return Verdict::Skip("malformed-case") };
+            let crlf = case["crlf"].as_bool() == Some(true);
+            let files: Vec<(String, String)> = crate::gen::corpus::llvm()
+                .iter()
+                .map(|(r, t)| (format!("{}/{r}", crate::ws::INC_DIR), if crlf { t.replace("\r\n", "\n").replace('\n', "\r\n") } else { t.clone() }))
+                .collect();
+            let root = format!("{}/{rel}", crate::ws::INC_DIR);
+            if !files.iter().any(|f| f.0 == root) {
+                return Verdict::Skip("malformed-case");
+            }
+            let ws = crate::ws::Workspace::new(&files, &root);
+            let a = ws.analysis();
+            for (f, ds) in a.diagnostics() {
+                if let Some(d) = ds.first() {
+                    let path = ws.fs.path_of(f).unwrap_or_default();
+                    let (s, e) = r2(d.location.range);
+                    let text = ws.text_of(f).cloned().unwrap_or_default();
+                    let snippet: String = text.get(s..e.min(text.len())).unwrap_or("?").chars().take(120).collect();
+                    return Verdict::Fail(Failure::new(
+                        "C13.false-positive",
+                        format!("C13.false-positive:real-file|{}", message_template(&d.message)),
+                        format!("{rel} (accepted by llvm-tblgen-14 as it stands) analysed as root: {path}:{s}..{e} {snippet:?}: {} ({} diagnostics in that file)", d.message, ds.len()),
+                    ));
+                }
+            }
+            return Verdict::pass(true);
         }
         let Some(p) = program_of(case) else { return Verdict::Skip("malformed-case") };
         if let Some(f) = case.get("fault") {
